@@ -293,6 +293,32 @@ impl serde::de::IntoDeserializer<'_, Error> for crate::ImDocument<String> {
     }
 }
 
+/// Tables that exist only through dotted keys or as parents of `[a.b]` headers have no span of
+/// their own; for `Spanned<T>` use the span of what they contain
+pub(crate) fn implied_table_span(
+    table: &crate::table::KeyValuePairs,
+) -> Option<std::ops::Range<usize>> {
+    let mut span: Option<std::ops::Range<usize>> = None;
+    for (key, item) in table.iter() {
+        let item_span = item.span().or_else(|| implied_item_span(item));
+        for part in [key.span(), item_span].into_iter().flatten() {
+            span = Some(match span {
+                Some(span) => span.start.min(part.start)..span.end.max(part.end),
+                None => part,
+            });
+        }
+    }
+    span
+}
+
+pub(crate) fn implied_item_span(item: &crate::Item) -> Option<std::ops::Range<usize>> {
+    match item {
+        crate::Item::Table(table) => implied_table_span(&table.items),
+        crate::Item::Value(crate::Value::InlineTable(table)) => implied_table_span(&table.items),
+        _ => None,
+    }
+}
+
 pub(crate) fn validate_struct_keys(
     table: &crate::table::KeyValuePairs,
     fields: &'static [&'static str],
